@@ -44,7 +44,7 @@ PROPS["C14"] = {
              "manner (client shutdown, carrier reset, garbage frame, partition until the multiplexer keep-alive gives up, or not at all) and compares with idle; "
              "footprint = goroutines of the bubble grouped by creation site (harness excluded) + open simulated sockets/listeners; non-trivial = both batches "
              "completed; distinct = schedule shapes"),
-    "probes": ["logical_connections", "session_end_checked", "fault_carrier_reset", "fault_partition", "fault_garbage_frame", "end_client_shutdown"],
+    "probes": ["logical_connections", "session_end_checked", "fault_carrier_reset", "fault_carrier_timeout", "fault_partition", "fault_garbage_frame", "end_client_shutdown"],
     "technique": "deterministic simulation: histories of N and 2N connections and fault-ended sessions, resource-ledger oracle + busy-loop detector",
     "level_text": ("Seeded exploration of connection histories and session endings. The oracle is a resource ledger taken at quiescent points after a drain of 150 "
                    "simulated seconds: constant (not linear) in the number of past connections, back to idle after the session ended, and no goroutine that emits "
@@ -112,7 +112,7 @@ PROPS["C16"] = {
     "rule": ("each run generates an upstream list of 1-4 entries of kinds {tcp, unix, tcp+tls, ws, udp}, each healthy or failing in one manner {refused, black-holed connect, accepts and stays "
              "silent, silent after the first answer, silent inside the StartTLS handshake, error status, no security while the client requires it}, a listener with forward address {absent, reachable, refused}, 1-3 concurrent local connections, then a history "
              "{none, carrier reset, silent loss, server crash+restart} followed by new local connections; non-trivial = the selection/forward/refusal outcome was judged; distinct = schedule shapes"),
-    "probes": ["failover_settled", "forward_direct", "all_failing_refused", "reconnect_ok", "insecure_upstream_skipped", "fault_carrier_reset", "fault_partition", "fault_server_restart"],
+    "probes": ["failover_settled", "forward_direct", "all_failing_refused", "reconnect_ok", "insecure_upstream_skipped", "fault_carrier_reset", "fault_carrier_timeout", "fault_partition", "fault_server_restart"],
     "technique": "deterministic simulation: generated upstream lists x failure modes x session-loss histories, accept-log/physical-connection-count/recovery-bound oracles",
     "level_text": ("Seeded exploration. Oracles: the forward target gets the connection and no upstream is contacted when the forward address is reachable; otherwise the first healthy entry that "
                    "meets the security requirement carries the session, later entries are never contacted, exactly one physical connection exists for all concurrent logical connections, "
